@@ -907,6 +907,40 @@ pub fn gen_desc(r: &mut StdRng, o: &GenOpts) -> Desc {
                 n.data.push((i as u32, format!("d{}", i)));
             }
         }
+        // a quarter of the name sections name entities of one kind only (every per-kind list but one is empty)
+        if r.gen_bool(0.25) {
+            let keep = r.gen_range(0..10);
+            if keep != 0 {
+                n.module = None;
+            }
+            if keep != 1 {
+                n.funcs.clear();
+            }
+            if keep != 2 {
+                n.locals.clear();
+            }
+            if keep != 3 {
+                n.labels.clear();
+            }
+            if keep != 4 {
+                n.types.clear();
+            }
+            if keep != 5 {
+                n.tables.clear();
+            }
+            if keep != 6 {
+                n.memories.clear();
+            }
+            if keep != 7 {
+                n.globals.clear();
+            }
+            if keep != 8 {
+                n.elems.clear();
+            }
+            if keep != 9 {
+                n.data.clear();
+            }
+        }
     }
     // ---- producers
     if o.producers && r.gen_bool(0.5) {
